@@ -120,3 +120,33 @@ func init() {
 		NotCovered:  "documents being loaded afresh as an observed fact (follows from these rules plus C18's, not separately observed)",
 	})
 }
+
+func init() {
+	registerProperty(&Property{
+		ID:    "C18",
+		Rules: []string{"load-once", "canon-key", "globals"},
+		Explanation: "Transparency of results is value-level and not decided. Decided: the document loader (a func-typed field of the resolver context, found by role) is called at exactly one site, which is the field's only reader; that call is reachable only on the miss branch of a cache lookup; lookup, loader call and cache fill use one key variable assigned once from normalizeBase; every successful return after the load (go/cfg) has stored the decoded document under that key (load-once). Every other cache Get/Set uses a key produced by the normaliser, with the fragment cleared (canon-key), so 'already present in the supplied cache' is decided on the key the loader would be called with. The default cache is a clone of the built-in one (globals).",
+		NotCovered:  "that results are identical with and without a cache (values); the behaviour of caller-supplied cache implementations",
+	})
+	registerProperty(&Property{
+		ID:    "C11",
+		Rules: []string{"canon-entry", "canon-key", "entry-wiring"},
+		Explanation: "Equality of results across spellings and idempotence of normalizeBase are value-level and not decided. Decided: every base location that enters through the API passes through the normaliser before it can reach a loader, a cache key or a family call: the options cloner replaces a non-empty RelativeBase by normalizeBase of itself and returns the clone; the pseudo-root helper returns a normalizeBase result; the loader factory substitutes it when no base is given; every entry point takes its base from the cloned options or from the pseudo-root helper (entry-wiring); every cache key and the argument of the document loader are normaliser results with the fragment cleared (canon-key).",
+		NotCovered:  "that normalizeBase's output is scheme-present/absolute/cleaned and that it is idempotent (its contract: values); equality of expansion results across spellings",
+	})
+}
+
+func init() {
+	registerProperty(&Property{
+		ID:    "C10",
+		Rules: []string{"entry-wiring", "opts-immutable", "root-readonly", "visit", "cut-check"},
+		Explanation: "Sibling cross-check of the exported entry points: every Expand*/Resolve* function that builds a loader does so through the loader factory with a fresh context, with options that are either the clone of the caller's or a literal based on the pseudo-root location, passes to the expander family as base path the RelativeBase of those very options, and - for the *WithRoot / ExpandSchema variants - registers the root through the pseudo-root helper in the same cache value the loader receives, for the same root (entry-wiring). The caller's *ExpandOptions flows only into the cloner, which copies by value and never writes through its parameter (opts-immutable). The root and cached documents are only read (root-readonly). Because all entry points reach the same family members, visit and cut-check (completeness, termination mechanism) hold for each.",
+		NotCovered:  "agreement of results between entry points (values); aliasing between the element and the root when the caller shares storage",
+	})
+	registerProperty(&Property{
+		ID:    "C05",
+		Rules: []string{"resolve-pure", "root-readonly", "errflow"},
+		Explanation: "Decided: no Resolve* entry point reaches an expander or the chain dereference, so nested $refs are not followed (resolve-pure); root and cached documents flow only to nil tests, jsonpointer.Pointer.Get, the data argument of swag.DynamicJSONToStruct, cache.Set and returns of the loading method - never the base of a store, a type assertion or a decode target - and the result reaches the caller only through DynamicJSONToStruct, i.e. a deep copy (root-readonly); every error from load, Pointer.Get and DynamicJSONToStruct reaches the caller, so a reference that designates nothing cannot yield a zero value with a nil error through a swallowed error (errflow).",
+		NotCovered:  "that the URI/pointer arithmetic designates the right node; pointer escape decoding (jsonpointer); equality of the three ways of supplying the root (the typed-versus-generic half is C15's rule)",
+	})
+}
